@@ -387,6 +387,26 @@ def alllayers(ctx, R):
         detail = "iterates %s, passes %s" % (itk, show(layer_arg) if layer_arg is not None else None)
         if not ok and itk.startswith("range("):
             ok = itk == "range(len(LAYERS))" and key(layer_arg).startswith("LAYERS[")
+    if ok:
+        # ... and unconditionally: a layer that is skipped (say, because it holds a single label) never gets its bounds,
+        # its stub targets or its write-back.  Only "the layer is empty" may guard the call (removeOverlap returns at once then).
+        def guards(evs, path):
+            for e in evs:
+                if e[0] == "in-branch":
+                    yield from guards([e[3]], path + [(e[1], e[2])])
+                elif e[0] == "loop":
+                    yield from guards(e[3], path)
+                elif e[0] == "mark" and e[1] == "removeOverlap":
+                    yield path
+
+        el = "elem(LAYERS)"
+        harmless = {("truth(%s)" % el, True), ("truth(len(%s))" % el, True), ("cmp(lt, 0, len(%s))" % el, True), ("cmp(eq, len(%s), 0)" % el, False),
+                    ("cmp(le, len(%s), 0)" % el, False), ("cmp(le, 1, len(%s))" % el, True), ("cmp(lt, len(%s), 1)" % el, False), ("cmp(ne, len(%s), 0)" % el, True)}
+        for path in guards(loops[0][3], []):
+            badg = [(c, pol) for c, pol in path if (key(c), pol) not in harmless]
+            if badg:
+                ok = False
+                detail = "the call is made only when %s: layers for which that fails are never laid out (no bounds, no stub targets)" % " and ".join(("" if pol else "not ") + key(c) for c, pol in badg)
     R.check(ok, "C01.ALLLAYERS", "every layer solved once, nearest first", where(f), detail, "Force.compute does not hand every layer of the distributor's result to removeOverlap exactly once in ascending order: %s" % detail)
     if ro and len(ro[0][1]) >= 2:
         so = ro[0][1][1]
